@@ -339,11 +339,19 @@ pub fn to_spec(p: &Placement, hash_seed: u64) -> RunSpec {
         spec.env.push(("DELTA_FEATURES".into(), format!("{}{}", if *plus { "+" } else { "" }, join_features(f, p.sloppy_ws && (*plus || !f.is_empty())))));
     }
     let mut params = Vec::new();
+    // both syntaxes git has used: 'key=value' (< 2.31) and 'key'='value'
+    let new_syntax = p.sloppy_ws || p.custom.len() % 2 == 1;
+    let param = |k: &str, v: &str| if new_syntax { format!("'{}'='{}'", k, v) } else { format!("'{}={}'", k, v) };
     if let Some(v) = &p.envparam_value {
-        params.push(format!("'delta.{}={}'", p.probe, v));
+        params.push(param(&format!("delta.{}", p.probe), v));
     }
     if let Some(f) = &p.envparam_features {
-        params.push(format!("'delta.features={}'", f.join(" ")));
+        params.push(param("delta.features", &f.join(" ")));
+    }
+    if !params.is_empty() && p.custom.len() % 3 == 0 {
+        // unrelated entries around them, as git produces for `git -c a=b -c delta.x=y`
+        params.insert(0, "'color.ui=always'".to_string());
+        params.push("'core.quotepath'='false'".to_string());
     }
     if !params.is_empty() {
         spec.env.push(("GIT_CONFIG_PARAMETERS".into(), params.join(" ")));
